@@ -574,6 +574,39 @@ func TestVerifC12(t *testing.T) {
 			r.Violation(fmt.Sprintf("totality panic on a deeply nested query parser=%s shape=%s msg=%s", parts[2], parts[0], c12NormMsg(res.Panics[0].Msg)), c, res.Panics[0].Msg)
 		}
 	}
+	// ---- (a'') the parse of a query does not depend on the queries parsed before it (pooled scratch buffers):
+	// after each "heavy" query (a 5000-byte token in every token position) a set of ordinary queries must
+	// parse to the same AST as in a fresh state.
+	{
+		m := seq.Mapping{"k": seq.NewSingleType(seq.TokenizerTypeKeyword, "", 0), "k8s-pod": seq.NewSingleType(seq.TokenizerTypeKeyword, "", 0),
+			"p": seq.NewSingleType(seq.TokenizerTypePath, "", 0), "t": seq.NewSingleType(seq.TokenizerTypeText, "", 0)}
+		ordinary := []string{`k:foo`, `not k:foo`, `k8s-pod:a-b`, `k:in(a, b)`, `k:[a to b]`, `p:"/x/y"`, `t:"hello world"`, `k:"a*b"`, `k:a and (k8s-pod:b or not t:c)`, `k:'q' | fields k`}
+		render := func(q string) string {
+			qq, err := parser.ParseSeqQL(q, m)
+			if err != nil {
+				return "error: " + err.Error()
+			}
+			return qq.Root.String()
+		}
+		base := map[string]string{}
+		for _, q := range ordinary {
+			base[q] = render(q)
+		}
+		long := strings.Repeat("x", 5000)
+		heavy := []string{"k:" + long, `k:"` + long + `"`, "k:in(a, " + long + ")", "k:[" + long + " to z]", "p:/" + long, "t:" + long, long + ":a", "k8s-pod:" + long + "-" + long, "k:'" + long + "*'"}
+		for round := 0; round < 8; round++ {
+			for _, h := range heavy {
+				vlib.Catch(func() { parser.ParseSeqQL(h, m) })
+				for _, q := range ordinary {
+					r.Add("evaluations", 1)
+					r.Add("meaning_cases", 1)
+					if got := render(q); got != base[q] {
+						r.Violation(fmt.Sprintf("meaning seqql: %q parses differently after another query was parsed", q), c12Case{Kind: "meaning", Input: q, Parser: "seqql"}, fmt.Sprintf("after a query with a 5000-byte token (%.40s...): AST %.200q, in a fresh state %.200q", h, got, base[q]))
+					}
+				}
+			}
+		}
+	}
 	// ---- (b) meaning ----
 	kwLower := func(s string) string { return s }
 	kwUpper := func(s string) string { return strings.ToUpper(s) }
@@ -651,7 +684,7 @@ func TestVerifC12(t *testing.T) {
 	r.Sample(c12Case{Kind: "meaning", Input: "not (k:a or not k:b) and k:c", Parser: "seqql"})
 	ev := r.Get("evaluations")
 	r.Finish(t, "model_checking",
-		fmt.Sprintf("totality: every string of <=%d lexemes over a %d-lexeme alphabet (field names of every mapping type incl. object/tags/nested/exists/multi-type/unmapped, all punctuation of both grammars, keywords, quotes of three kinds, backslash, comment, invalid UTF-8, the private-use wildcard rune) plus every string '<field>:' + %d lexemes, through ParseSeqQL and ParseQuery (full and nil mapping) and ParseAggregationFilter, each under recover, in worker subprocesses (hang => bisection); three deeply nested queries (4 M levels of parentheses in both parsers, 4 M NOTs in the legacy parser; the process must survive); single-edit mutation closure (delete / duplicate / insert / substitute by every lexeme at every position) of 8 seed queries. meaning: every boolean tree with <=4 leaves over 3 atoms with NOT at every node (double NOT at the root), minimal and full parentheses, both languages, all 8 assignments; in(...) lists of every length 1..130 in 4 query shapes, judged on one document per listed value plus an unlisted one; text-word conjunction. distinct_nontrivial = distinct well-formed queries whose meaning was compared", maxLen, len(c12Lexemes), maxLen),
+		fmt.Sprintf("totality: every string of <=%d lexemes over a %d-lexeme alphabet (field names of every mapping type incl. object/tags/nested/exists/multi-type/unmapped, all punctuation of both grammars, keywords, quotes of three kinds, backslash, comment, invalid UTF-8, the private-use wildcard rune) plus every string '<field>:' + %d lexemes, through ParseSeqQL and ParseQuery (full and nil mapping) and ParseAggregationFilter, each under recover, in worker subprocesses (hang => bisection); three deeply nested queries (4 M levels of parentheses in both parsers, 4 M NOTs in the legacy parser; the process must survive); single-edit mutation closure (delete / duplicate / insert / substitute by every lexeme at every position) of 8 seed queries. meaning: every boolean tree with <=4 leaves over 3 atoms with NOT at every node (double NOT at the root), minimal and full parentheses, both languages, all 8 assignments; 10 ordinary queries re-parsed after each of 9 queries carrying a 5000-byte token (the AST must not depend on earlier requests); in(...) lists of every length 1..130 in 4 query shapes, judged on one document per listed value plus an unlisted one; text-word conjunction. distinct_nontrivial = distinct well-formed queries whose meaning was compared", maxLen, len(c12Lexemes), maxLen),
 		map[string]any{
 			"states":                        r.Get("totality_strings") + r.Get("mutation_strings") + r.Get("meaning_cases"),
 			"transitions":                   ev,
